@@ -126,6 +126,9 @@ def poolStep (s : St) (ws : List String) : St × String :=
       | some s' =>
         let en := joinWith "," ((enabledTids s').map tidName)
         (s', s!"{tidName t} {describe s t} # {poolDigest s'} # en:{en}"))
+  | ["explore", w] => match w.toNat? with
+    | some limit => (s, exploreGraph step allTids (fun x => toString (repr x)) tidName s limit)
+    | none => (s, "bad-op")
   | ["enabled"] => (s, "en:" ++ joinWith "," ((enabledTids s).map tidName))
   | ["final"] => (s, poolFinal s)
   | ["inv"] => (s, "inv:" ++ joinWith "," (safeCheck s))
